@@ -443,10 +443,12 @@ type cellInfo struct {
 	escape bool // address passed to a call or stored somewhere
 }
 
-var cellCache = map[*ssa.Function]map[*ssa.Alloc]*cellInfo{}
 
 func (p *Program) cells(root *ssa.Function) map[*ssa.Alloc]*cellInfo {
-	if m, ok := cellCache[root]; ok {
+	if p.cellCache == nil {
+		p.cellCache = map[*ssa.Function]map[*ssa.Alloc]*cellInfo{}
+	}
+	if m, ok := p.cellCache[root]; ok {
 		return m
 	}
 	m := map[*ssa.Alloc]*cellInfo{}
@@ -480,7 +482,7 @@ func (p *Program) cells(root *ssa.Function) map[*ssa.Alloc]*cellInfo {
 			}
 		}
 	}
-	cellCache[root] = m
+	p.cellCache[root] = m
 	return m
 }
 
@@ -494,10 +496,12 @@ func (p *Program) singleStore(a *ssa.Alloc) ssa.Value {
 	return ci.stores[0].Val
 }
 
-var allocNameCache = map[*ssa.Alloc]string{}
 
 func (p *Program) allocName(a *ssa.Alloc) string {
-	if s, ok := allocNameCache[a]; ok {
+	if p.allocNameCache == nil {
+		p.allocNameCache = map[*ssa.Alloc]string{}
+	}
+	if s, ok := p.allocNameCache[a]; ok {
 		return s
 	}
 	elem := a.Type().Underlying().(*types.Pointer).Elem()
@@ -531,11 +535,11 @@ func (p *Program) allocName(a *ssa.Alloc) string {
 	if len(same) > 1 {
 		sort.SliceStable(same, func(i, j int) bool { return same[i].Pos() < same[j].Pos() })
 		for i, o := range same {
-			allocNameCache[o] = fmt.Sprintf("%s#%d", s, i+1)
+			p.allocNameCache[o] = fmt.Sprintf("%s#%d", s, i+1)
 		}
-		return allocNameCache[a]
+		return p.allocNameCache[a]
 	}
-	allocNameCache[a] = s
+	p.allocNameCache[a] = s
 	return s
 }
 
